@@ -142,6 +142,9 @@ def extract(features=("async", "http"), release=False, repo=None, keep=False):
 # ------------------------------------------------------------------------------------------------
 # path normalisation
 
+_CRATE_ROOTS = ("protocol", "parser", "async_io", "cgi", "ext")
+
+
 def norm(path):
     """Strip generic arguments from a rustc def_path_str: `a::B::<'x, T>::f` -> `a::B::f`,
     `<a::B<'_, R> as t::Tr>::m` -> `<a::B as t::Tr>::m`."""
@@ -160,6 +163,14 @@ def norm(path):
                 continue
             # generic args: drop (and a preceding `::`)
             j = _match(path, i)
+            inner = path[i + 1:j]
+            ty0 = inner[5:].strip().lstrip("&").split("<")[0].split("::")[0] if inner.startswith("impl ") else ""
+            if inner.startswith("impl ") and " for " not in _top_level(inner) and (ty0 in _CRATE_ROOTS or (ty0[:1].isupper() and "::" not in inner[5:].split("<")[0])):
+                # an inherent impl block that lives in another module than its type (`m::sub::<impl m::Ty>::f`): the item belongs to the
+                # type, wherever the block was written
+                out = list(norm(inner[5:].strip()))
+                i = j + 1
+                continue
             if len(out) >= 2 and out[-1] == ':' and out[-2] == ':':
                 out.pop()
                 out.pop()
@@ -167,6 +178,19 @@ def norm(path):
             continue
         out.append(c)
         i += 1
+    return ''.join(out)
+
+
+def _top_level(s):
+    """the text of s outside any angle brackets"""
+    out, depth = [], 0
+    for k, c in enumerate(s):
+        if c == '<':
+            depth += 1
+        elif c == '>' and (k == 0 or s[k - 1] != '-'):
+            depth -= 1
+        elif depth == 0:
+            out.append(c)
     return ''.join(out)
 
 
@@ -404,10 +428,118 @@ class MissingAnchor(Exception):
 _CACHE = {}
 
 
+def _canon_trait_impl(sv):
+    """`m::sub::<impl Trait for crate::Ty>::f`  ->  `<crate::Ty as Trait>::f`: the form rustc prints when the impl block sits in the type's own
+    module, so a trait impl moved to another module file keeps its path.  Impls for foreign self types (`impl From<X> for u8`) keep the
+    module form they always had."""
+    out = sv
+    pos = 0
+    while True:
+        i = out.find("::<impl ", pos)
+        if i < 0:
+            return out
+        j = _match(out, i + 2)
+        inner = out[i + 3:j]                # "impl Trait for Ty"
+        top = _top_level(inner)
+        k = -1
+        if " for " in top:
+            # position of the top-level " for " in inner
+            depth = 0
+            for q, c in enumerate(inner):
+                if c == '<':
+                    depth += 1
+                elif c == '>' and inner[q - 1] != '-':
+                    depth -= 1
+                elif depth == 0 and inner.startswith(" for ", q):
+                    k = q
+                    break
+        if k < 0:
+            pos = j
+            continue
+        trait_, ty = inner[5:k].strip(), inner[k + 5:].strip()
+        ty0 = ty.lstrip("&").split("<")[0].split("::")[0]
+        if ty0 not in _CRATE_ROOTS:
+            pos = j
+            continue
+        # the module prefix: back to the previous non-path character
+        st_ = i
+        while st_ > 0 and (out[st_ - 1].isalnum() or out[st_ - 1] in "_:"):
+            st_ -= 1
+        out = out[:st_] + "<" + ty + " as " + trait_ + ">" + out[j + 1:]
+        pos = st_ + 1
+
+
+def _map_strings(x, fn):
+    if isinstance(x, str):
+        return fn(x) if "<impl " in x else x
+    if isinstance(x, list):
+        return [_map_strings(v, fn) for v in x]
+    if isinstance(x, dict):
+        return {k: _map_strings(v, fn) for k, v in x.items()}
+    return x
+
+
+def relocate(doc):
+    """Private items that merely *moved* -- into a new private submodule file, or between modules -- keep the def path the rules know them
+    by: an item under a module that did not exist on the pinned tree is mapped back to the pinned item of the same name and kind when that
+    one is gone from its old place, and every other path through a new module is flattened into the parent module (`m::sub::Item` ->
+    `m::Item`: the usual "extract a submodule" edit).  Public paths cannot move without an API break, so only private items are affected.
+    On the pinned tree this is the identity."""
+    try:
+        known = json.load(open(os.path.join(os.path.dirname(os.path.abspath(__file__)), "known_items.json")))
+    except Exception:
+        return doc
+    mods = set(known["mods"])
+    doc = _map_strings(doc, _canon_trait_impl)
+    cur = {k: [x["path"] for x in doc.get(k, [])] for k in ("fns", "adts", "consts")}
+    cur_all = set(p_ for v in cur.values() for p_ in v)
+    fn_paths = set(norm(x) for x in cur["fns"]) | set(norm(x) for x in known["fns"])
+
+    def is_mod_seg(seg):
+        return bool(re.fullmatch(r"[a-z][a-z0-9_]*", seg))
+    new_mods = set()
+    for p_ in cur_all:
+        if p_.startswith("<"):
+            continue
+        segs = norm(p_).split("::")
+        for i in range(1, len(segs)):
+            pre = "::".join(segs[:i])
+            if not all(is_mod_seg(x) for x in segs[:i]):
+                break
+            if pre not in mods and pre not in fn_paths:
+                new_mods.add(pre)
+    if not new_mods:
+        return doc
+    mapping = {}
+    for kind in ("adts", "fns", "consts"):
+        kn = set(known[kind])
+        for p_ in cur[kind]:
+            np_ = norm(p_)
+            if p_ in kn or p_.startswith("<") or "::" not in np_:
+                continue
+            parent, ident = np_.rsplit("::", 1)
+            if not any(parent == m_ or parent.startswith(m_ + "::") for m_ in new_mods):
+                continue
+            cands = [k_ for k_ in kn if not k_.startswith("<") and norm(k_).rsplit("::", 1)[-1] == ident and k_ not in cur_all
+                     and all(is_mod_seg(x) for x in norm(k_).split("::")[:-1])]
+            if len(cands) == 1 and norm(cands[0]) != np_:
+                mapping[np_] = norm(cands[0])
+    text = json.dumps(doc)
+    for a in sorted(mapping, key=len, reverse=True):
+        text = re.sub(r"(?<![\w:])%s(?![\w])" % re.escape(a), mapping[a], text)
+    for m_ in sorted(new_mods, key=len, reverse=True):
+        text = re.sub(r"(?<![\w:])%s::" % re.escape(m_), m_.rsplit("::", 1)[0] + "::" if "::" in m_ else "", text)
+    return json.loads(text)
+
+
 def load(features=("async", "http"), release=False, repo=None):
     key = (tuple(sorted(features)), release, repo or REPO)
     if key not in _CACHE:
         doc = extract(features, release, repo)
+        try:
+            doc = relocate(doc)
+        except Exception:
+            pass        # (never take a check down: without it the rules fail closed on a missing anchor, as before)
         f = Facts(doc)
         # private items are looked up by effect, not by name (roles.py): a renamed helper is mapped back to the
         # name the rules use; on the pinned tree nothing is renamed
